@@ -8,6 +8,13 @@ LEVEL_NOTE = ("Seeded search, not proof: a clean batch is evidence for the runs 
               "engine checks the external dsharp/maxsatz binaries shipped with the repository, which run as real code.")
 
 CLAIMED = {
+ "C03": dict(
+    technique="deterministic simulation: seeded scheduler permuting the engine's sibling message batches (reorder faults), differential oracle vs identity schedule, ddmin replay",
+    text="The real buffered engine is run under a simulator-owned scheduler (guarded hook in MessageFIFO) that permutes every batch of sibling "
+         "'e' messages according to a seeded policy (uniform, reverse, rotate, static per node, one-shot); the canonical outcome (query instances, "
+         "probabilities, error class) must equal the identity-schedule outcome of the same program. Corpus test/*.pl plus seeded generated stratified programs; "
+         "violations are minimised (program and decision log) and replayed in a fresh process. Exploration: schedules are sampled, not enumerated.",
+    design_ref="DESIGN.md §5 C03", quick_t=600, thorough_t=3600),
  "C34": dict(
     technique="deterministic simulation: seeded operation histories vs reference models, invalid-op faults, ddmin replay",
     text="Seeded histories (one integer = one history) of OrderedSet/UHeap/BitVector operations over several instances, compared "
